@@ -195,8 +195,12 @@ func (s *Server) Run(addr string, opt ...Option) error {
 		s.connWg.Add(1)
 		go func() {
 			defer func() {
-				s.logger.Debug("connWg done", "op", op, "conn", localConnID)
-				s.connWg.Done()
+				// the connection is only done once it's closed and its
+				// onCloseHandler has returned; Stop waits for that.
+				defer func() {
+					s.logger.Debug("connWg done", "op", op, "conn", localConnID)
+					s.connWg.Done()
+				}()
 				err := conn.close()
 				if err != nil {
 					s.logger.Error("error closing conn", "op", op, "conn", localConnID, "conn/req", "err", err)
